@@ -476,6 +476,24 @@ def cachedseq_gen(rng, tier):
             steps.append("%s/%s/%s/30" % (rng.choice(ls + ["udp", "tcp"]), rng.choice(clients), gens.hx(query(False))))
             steps.append("%s/%s/%s/0" % (rng.choice(ls + ["udp", "tcp"]), rng.choice(clients), gens.hx(query(True))))
         out.append("cs%d cfg=%s steps=%s up=reply:%s" % (i, cfg, ";".join(steps), gens.hx(reply)))
+    # a response that fits a stream frame only BECAUSE of name compression (uncompressed > 65535 octets): the cache
+    # stores the uncompressed form without any limit, so the cached copy must be the complete answer too
+    for j in range(budget(tier, 2, 12)):
+        i = n + j
+        cfg = "U=t;E=0;S=-;R=-:0:0:0;C=400000"
+        labels = [b"big%d" % i, b"x" * 40, rng.choice(VOCAB), b"test"]
+        name = gens.raw_name(labels)
+        qtype, qclass = 1, 1
+        question = name + b"\0" + struct.pack(">HH", qtype, qclass)
+        nrec = rng.choice([1000, 1100, 1200])                     # 16 octets each compressed, ~70 uncompressed
+        rrs = b"".join(b"\xc0\x0c" + struct.pack(">HHIH", 1, 1, 300, 4) + struct.pack(">I", 0x0a000000 + k) for k in range(nrec))
+        reply = struct.pack(">HHHHHH", 0, 0x8180, 1, nrec, 0, 0) + question + rrs
+        assert len(reply) <= 65535
+        q = lambda: struct.pack(">HHHHHH", rng.randrange(65536), 0x0100, 1, 0, 0, 0) + question
+        ls = ["tcp", "gnet", "http-post", "fasthttp-post"]
+        steps = ["%s/-/%s/0" % (rng.choice(ls), gens.hx(q())), "%s/-/%s/50" % (rng.choice(ls), gens.hx(q())),
+                 "%s/-/%s/0" % (rng.choice(ls), gens.hx(q()))]
+        out.append("cs%d cfg=%s steps=%s up=reply:%s" % (i, cfg, ";".join(steps), gens.hx(reply)))
     # prefetching cases first: they take 3.7 s each and overlap
     out.sort(key=lambda s: "/3300" not in s)
     return out
@@ -490,6 +508,13 @@ def cachedseq_oracle(line, res):
             return "step %d got no single DNS response (%s)" % (i, r)
     if f.get("upq", "-") == "-":
         return "no upstream query observed for a cache miss"
+    # C07: what is served later (from cache) has the rcode / flags and the record counts of what was relayed first
+    r1 = f.get("r1", "")
+    for i in range(2, n + 1):
+        r = f.get("r%d" % i, "")
+        if len(r1) >= 24 and len(r) >= 24 and (r[4:8] != r1[4:8] or r[8:20] != r1[8:20]):
+            return ("step %d (served from cache or re-fetched) differs from the first answer in flags/rcode %s vs %s or in the "
+                    "question/answer/authority counts %s vs %s" % (i, r[4:8], r1[4:8], r[8:20], r1[8:20]))
     return None
 
 
